@@ -41,8 +41,9 @@ class Program:
 
 class Family:
     def __init__(self, name, gen, lang="python", quick=None, thorough=None, hostile=False, doc="",
-                 growth=True, big=()):
+                 growth=True, big=(), mechanism="constant_folding"):
         self.name, self.gen, self.lang, self.hostile, self.doc = name, gen, lang, hostile, doc
+        self.mechanism = mechanism     # what a hostile family exercises (first part of its signatures)
         self.big = tuple(big)          # extra large sizes, run without --enable-p2 only
         self.quick = quick if quick is not None else QUICK_NS
         self.thorough = thorough if thorough is not None else THOROUGH_NS
@@ -482,6 +483,120 @@ def hostile_concat(n, rng, variant):
     m = 4 * n
     expr = " + ".join('"%s"' % (("%02d" % (i % 100)) * 32) for i in range(m + 1))
     return f"def entry(req):\n    k = {expr}\n    y = k + req\n    sink(y)\n    return y\n" + PY_TAIL
+
+
+# =========================================================================================================
+# hostile index constants: the index ladder N = 10**n is written into lists built in several ways
+INDEX_QUICK = (1, 2, 3, 4, 5, 6)
+INDEX_THOROUGH = (1, 2, 3, 4, 5, 6, 7)
+
+
+@family("hostile_index", quick=INDEX_QUICK, thorough=INDEX_THOROUGH, hostile=True, mechanism="array_index")
+def hostile_index(n, rng, variant):
+    """element writes / reads at index N = 10**n on lists built by spread, concatenation, append, literal and
+    comprehension; a dict key N and negative indexes as controls (one digit more text per step)"""
+    N = 10 ** n
+    lines = ["def entry(req):", "    sink(req)", "    a = [1, 2, req]",
+             "    b = [*a, 3]", f"    b[{N}] = 5",
+             "    c = a + [3]", f"    c[{N}] = req",
+             "    e = []", "    e.append(req)", f"    e[{N}] = 5",
+             "    f = [x for x in a]", f"    f[{N}] = 5",
+             f"    a[{N}] = 6", f"    r1 = a[{N}]", f"    r2 = b[{N}]", f"    r3 = b[-{N}]",
+             f"    i = {N}", "    g = [*a, 4]", "    g[i] = req", "    r4 = g[i]",
+             "    d = {}", f"    d[{N}] = req", f"    r5 = d[{N}]",
+             f"    h = [*a, 5]", f"    h[-{N}] = 1",
+             "    return [b, c, e, f, g, h, r1, r2, r3, r4, r5]", ""]
+    return "\n".join(lines) + PY_TAIL
+
+
+@family("js_hostile_index", lang="javascript", quick=INDEX_QUICK, thorough=INDEX_THOROUGH, hostile=True,
+        mechanism="array_index")
+def js_hostile_index(n, rng, variant):
+    """JavaScript: element writes / reads at index N = 10**n on arrays built by spread and literal, an object key as
+    control"""
+    N = 10 ** n
+    lines = ["function entry(req) {", "  sink(req);", "  var a = [1, 2, req];", "  var b = [...a, 3];",
+             f"  b[{N}] = 5;", "  var c = [1, 2, 3];", f"  c[{N}] = req;", f"  var r1 = b[{N}];", f"  var r2 = c[{N}];",
+             f"  var i = {N};", "  var g = [...a, 4];", "  g[i] = req;", "  var r3 = g[i];",
+             "  var d = {};", f"  d[{N}] = req;", "  return [b, c, g, r1, r2, r3, d];", "}", "", "entry(1);", ""]
+    return "\n".join(lines)
+
+
+@family("java_hostile_index", lang="java", quick=INDEX_QUICK, thorough=INDEX_THOROUGH, hostile=True,
+        mechanism="array_index")
+def java_hostile_index(n, rng, variant):
+    """Java: element writes / reads at index N = 10**n on arrays from an initialiser and from new int[3]"""
+    N = 10 ** n
+    return ("public class Main {\n  static int entry(int req) {\n    sink(req);\n    int[] b = {1, 2, req};\n"
+            f"    b[{N}] = 5;\n    int[] c = new int[3];\n    c[{N}] = req;\n    int r = b[{N}] + c[{N}];\n"
+            "    return r;\n  }\n  public static void main(String[] args) {\n    entry(1);\n  }\n}\n")
+
+
+# =========================================================================================================
+# empty callees: functions / methods whose body is empty (pass, docstring only, {}) have an empty Phase I state space
+@family("empty_callees")
+def empty_callees(n, rng, variant):
+    """n body-less helpers (pass-only, docstring-only, pass-only methods) called once, in loops, from several sites,
+    through a chain, recursively and through a variable"""
+    s = _salt(variant)
+    defs = []
+    for i in range(n):
+        body = "    pass\n" if (i + variant) % 3 != 1 else '    """nothing to do"""\n'
+        defs.append(f"def noop{i}{s}():\n{body}" if i % 2 == 0 else f"def noop{i}{s}(x, y=1):\n{body}")
+    defs.append(f"class Stub{s}:\n    def m(self):\n        pass\n    def k(self, x):\n        \"\"\"doc\"\"\"\n"
+                f"    def use(self, x):\n        self.m()\n        self.k(x)\n        return x\n")
+    defs.append(f"def mid{s}(x):\n    noop0{s}()\n    return x\n")
+    body = ["def entry(req):", "    sink(req)", f"    o = Stub{s}()", "    o.m()", "    r = o.use(req)"]
+    for i in range(n):
+        call = f"noop{i}{s}()" if i % 2 == 0 else f"noop{i}{s}(req, {i})"
+        body.append(f"    {call}")
+        if i % 3 == 0:
+            body += ["    k = 0", "    while k < 3:", f"        {call}", "        k = k + 1"]
+        if i % 3 == 1:
+            body += [f"    u{i} = {call}", f"    {call}"]
+        if i % 3 == 2:
+            body += ["    for j in range(2):", f"        {call}", "        o.m()"]
+    body += [f"    f = noop0{s}", "    f()", f"    r = mid{s}(r)", f"    r = mid{s}(r)", "    o.k(r)", "    return r", ""]
+    defs.append("\n".join(body))
+    return "\n".join(_shuffled_defs(defs, rng, variant)) + PY_TAIL
+
+
+@family("js_empty_callees", lang="javascript")
+def js_empty_callees(n, rng, variant):
+    """JavaScript: n empty functions `function f() {}` and an empty method, called once, in a loop and from two sites"""
+    s = _salt(variant)
+    defs = [f"function noop{i}{s}({'x' if i % 2 else ''}) {{\n}}\n" for i in range(n)]
+    defs.append(f"class Stub{s} {{\n  m() {{\n  }}\n  use(x) {{\n    this.m();\n    return x;\n  }}\n}}\n")
+    body = ["function entry(req) {", "  sink(req);", f"  var o = new Stub{s}();", "  o.m();", "  var r = o.use(req);"]
+    for i in range(n):
+        call = f"noop{i}{s}({'req' if i % 2 else ''});"
+        body.append(f"  {call}")
+        if i % 2 == 0:
+            body += ["  for (var k = 0; k < 3; k++) {", f"    {call}", "  }"]
+        else:
+            body += [f"  var u{i} = {call}"]
+    body += ["  return r;", "}", ""]
+    defs.append("\n".join(body))
+    return "\n".join(_shuffled_defs(defs, rng, variant)) + "\nentry(1);\n"
+
+
+@family("java_empty_callees", lang="java")
+def java_empty_callees(n, rng, variant):
+    """Java: n empty static methods `static void f() {}` and an empty instance method, called once, in a loop and twice"""
+    ms = [f"  static void noop{i}({'int x' if i % 2 else ''}) {{\n  }}\n" for i in range(n)]
+    ms.append("  void m() {\n  }\n")
+    body = ["  static int entry(int req) {", "    sink(req);", "    Main o = new Main();", "    o.m();"]
+    for i in range(n):
+        call = f"noop{i}({'req' if i % 2 else ''});"
+        body.append(f"    {call}")
+        if i % 2 == 0:
+            body += ["    for (int k = 0; k < 3; k++) {", f"      {call}", "    }"]
+        else:
+            body.append(f"    {call}")
+    body += ["    return req;", "  }", ""]
+    ms.append("\n".join(body))
+    ms = _shuffled_defs(ms, rng, variant)
+    return "public class Main {\n" + "\n".join(ms) + "\n  public static void main(String[] args) {\n    entry(1);\n  }\n}\n"
 
 
 # =========================================================================================================
